@@ -245,6 +245,13 @@ def _bulk_iter(ctx, rep, rule, mod, meth, stop_exc):
                       "a request is sent although buffered elements are left", loc(ctx, mod, e))
         if not st and p.done == "return" and pops and holds(p.conds, "self._buffer", True):
             nearly += 1
+        # whatever is handed to the caller was tested for the None end marker first
+        if p.done == "return" and pops and p.ret is not None and "pop" in pysym.text(p.ret):
+            i, e = pops[-1]
+            ptxt = "%s(%s)" % (e.func, ", ".join(e.args))
+            rep.check(rule, q + "|delivered-element-tested", ("eq(None,%s)" % ptxt, False) in p.conds, "popped element compared with None before delivery",
+                      "an element popped from the buffer is returned without the None end-marker test: the marker is yielded as a value and the walk does not end",
+                      loc(ctx, mod, e))
     if not npop:
         rep.missing(rule, q + ": self._buffer.pop")
     if not nstore:
@@ -410,15 +417,18 @@ def refresh_flow(ctx, rep, rule):
                               "refresh probes run without the v3 / _to_refresh gate", loc(ctx, mod, e))
                 for i, e in sk:
                     nk += 1
-                    rep.check(rule, q + ".refresh|set_keys-args", e.args == SET_KEYS_ARGS, "deferred user's name and keys, in order", "set_keys called with %s" % e.args,
-                              loc(ctx, mod, e))
-                    rep.check(rule, q + ".refresh|set_keys-under-deferred", holds(e.conds, "self._deferred_user", True), "", "set_keys is not conditional on a deferred user",
+                    rep.check(rule, q + ".refresh|set_keys-args", [strip_old(a) for a in e.args] == SET_KEYS_ARGS, "deferred user's name and keys, in order",
+                              "set_keys called with %s" % e.args, loc(ctx, mod, e))
+                    rep.check(rule, q + ".refresh|set_keys-under-deferred", holds(e.conds, "self._deferred_user", True) or ("old(self._deferred_user)", True) in e.conds,
+                              "", "set_keys is not conditional on a deferred user",
                               loc(ctx, mod, e))
                     rep.check(rule, q + ".refresh|discover-before-set_keys", any(j < i for j, x in probes), "engine id discovery precedes key localisation",
                               "set_keys runs before any refresh: keys are localised with an empty engine id", loc(ctx, mod, e))
                     clr = [j for j, x in stores(p, "self._deferred_user") if x.value == "None" and j > i]
-                    rep.check(rule, q + ".refresh|clear-deferred", bool(clr), "deferred user cleared after installation", "deferred user is not cleared after set_keys",
-                              loc(ctx, mod, e))
+                    early = [j for j, x in stores(p, "self._deferred_user") if x.value == "None" and j < i]
+                    rep.check(rule, q + ".refresh|clear-deferred", bool(clr) and not early, "deferred user cleared after (and only after) installation",
+                              "the deferred user is %s: if discovery or set_keys fails the keys are never installed and later requests go out "
+                              "unauthenticated and in clear" % ("cleared before set_keys has run" if early else "not cleared after set_keys"), loc(ctx, mod, e))
                     rep.check(rule, q + ".refresh|final-refresh", any(j > i for j, x in probes) or p.done == "raise", "time/boots refresh with the real keys follows",
                               "no refresh after the keys are installed", loc(ctx, mod, e))
                 if not sk and p.done is None and probes and ("self._deferred_user", True) in p.conds:
@@ -488,6 +498,13 @@ def timeouts(ctx, rep, rule):
                           "whole retry loop under wait_for(self._timeout)", "wait_for called with %s" % a, loc(ctx, "async_client", e))
                 rep.check(rule, "async_client._recv|timeout-mapped", maps(e, "AIOTimeoutError", "TimeoutError") or maps(e, "asyncio.TimeoutError", "TimeoutError") or
                           maps(e, "TimeoutError", "TimeoutError"), "asyncio timeout -> TimeoutError", "asyncio timeout is not mapped to TimeoutError",
+                          loc(ctx, "async_client", e))
+                # every retry waits for a fresh readiness notification: the future and the reader registration are made
+                # inside the loop (a future created once stays done after the first wake-up and the loop spins)
+                arm = [x for j, x in calls(p, lambda f: f.endswith(".create_future") or f.endswith(".add_reader")) if j < i and m and x.origin and m.group(1) in x.origin]
+                rep.check(rule, "async_client._recv|re-armed-each-retry", bool(arm) and all(x.loops for x in arm),
+                          "create_future / add_reader inside the retry loop", "the readiness future or the reader registration is set up once outside the "
+                          "retry loop: after the first stray datagram the coroutine spins without yielding and the wait_for deadline cannot fire",
                           loc(ctx, "async_client", e))
                 rc = [x for j, x in calls(p, "receiver") if j < i]
                 inside = [x for x in rc if m and x.origin and m.group(1) in x.origin]
